@@ -182,6 +182,18 @@ def handle (st : St) (idx : Nat) (line : String) : St × String :=
       (st, emit idx impl { model := model,
                            fails := if implOut = model then [] else ["C05:outcome-depends-on-how-the-stream-was-cut-into-reads"],
                            tags := [s!"rdl cut={(kvNat rest "cut").getD 0}"] })
+    | "conn" :: "slowh" :: rest =>
+      -- handlers slower than the Server's ReadTimeout, the next messages already buffered: the
+      -- reader loop is still "read, dispatch, wait for the handler" (C08_one_at_a_time, C08_order)
+      let n := (kvNat rest "n").getD 0
+      let evs := (List.range n).flatMap (fun i => [s!"s{i+1}", s!"e{i+1}"])
+      let model := s!"ev={",".intercalate evs} max=1"
+      let implOut := " ".intercalate implToks
+      let mx := (kvNat implToks "max").getD 0
+      (st, emit idx impl { model := model,
+                           fails := (if mx > 1 then ["C08:two-handlers-active-on-one-connection"] else []) ++
+                                    (if implOut ≠ model ∧ mx ≤ 1 then ["C08:handlers-not-run-in-arrival-order-to-completion"] else []),
+                           tags := [s!"slowh n={n}"] })
     | "conn" :: "bigblock" :: rest =>
       -- a handler that has not returned holds up its own connection's reader and nobody else's
       -- (C08_frame: the connections' loops share nothing; sizes do not enter)
